@@ -220,6 +220,17 @@ def _spec_case(g, kind, cps=("A", "B")):
             e = Instr("parent", "parent", container=A, fields=f"x{k2}, y{k2}")
             it = Item("struct", "S", shape="named", attrs=tr(["into", "into_existing", "from"]))
             it.fields = [Field("pre", "i32"), Field("p", "P", pick(d, e, order, mode))]
+        elif kind == "parent_default_bare_vs_params":
+            # a default bare #[parent] next to a parameterised one dedicated to A: the dedicated one has to win for A, the default one serves B
+            d = Instr("parent", "parent", container=None, fields=None)
+            e = Instr("parent", "parent", container=A, fields=f"x{k2}, y{k2}")
+            it = Item("struct", "S", shape="named", attrs=tr(["into", "into_existing", "from"]))
+            it.fields = [Field("pre", "i32"), Field("p", "P", pick(d, e, order, mode))]
+        elif kind == "parent_default_params_vs_bare":
+            d = Instr("parent", "parent", container=None, fields=f"x{k1}, y{k1}")
+            e = Instr("parent", "parent", container=A, fields=None)
+            it = Item("struct", "S", shape="named", attrs=tr(["into", "into_existing", "from"]))
+            it.fields = [Field("pre", "i32"), Field("p", "P", pick(d, e, order, mode))]
         elif kind == "where_clause":
             d = Instr("where_clause", "where_clause", container=None, preds=f"T: W{k1}")
             e = Instr("where_clause", "where_clause", container=A, preds=f"T: W{k2}")
@@ -263,7 +274,7 @@ def _spec_case(g, kind, cps=("A", "B")):
 
 
 SPEC_KINDS = ["member_map", "ghost", "ghosts", "child", "child_parents", "parent", "where_clause", "literal", "pattern", "type_hint", "variant_ghosts", "enum_ghosts", "variant_map",
-              "parent_bare_vs_params", "parent_params_vs_bare"]
+              "parent_bare_vs_params", "parent_params_vs_bare", "parent_default_bare_vs_params", "parent_default_params_vs_bare"]
 SPEC_CPS = [("A", "B"), ("A", "B"), ("G<i32>", "G<u8>"), ("m::C", "n::C"), ("Q<'x, u8>", "Q<'y, u8>"), ("B", "A")]
 
 
